@@ -6,7 +6,8 @@
  "restrict_fp": ["trie_notify.function_pointer_call.1/verif_notify_cb", "trie_notify.function_pointer_call.2/verif_notify_cb"],
  "stubs": ["map notifier callback (records calls)", "calloc/malloc/realloc (scripted: succeed)"],
  "expect_classes": ["assertion"], "timeout": 300,
- "variants": [{"vname": "parked", "defines": ["-DV_PARKED"]}, {"vname": "other", "defines": ["-DV_OTHER"]}, {"vname": "abandon", "defines": ["-DV_ABANDON"]}]}
+ "variants": [{"vname": "parked", "defines": ["-DV_PARKED"]}, {"vname": "other", "defines": ["-DV_OTHER"]}, {"vname": "abandon", "defines": ["-DV_ABANDON"]},
+              {"vname": "parked_then_rest", "defines": ["-DV_PARKED", "-DV_THEN_REST"]}]}
 */
 /* Removing an entry while a trie iterator is open (C18) -- "remove reports success exactly when the key was
  * present and then the key is gone" (C17) must hold at once, also for the entry the iterator is positioned on;
@@ -14,6 +15,10 @@
  * trie is exactly the dictionary of the surviving entries.
  *  abandon: no removal; the iterator is abandoned part-way (iter_free while parked): its reference is released;
  *  other : the removed key is not the one the iterator is parked on (passes);
+ *  parked_then_rest: the parked key is removed, then EVERY other key as well (C18: "removing any entry ... the last
+ *          remaining one, or all of them"); the iterator then reports the end; no freed memory is touched -- in
+ *          particular the emptied node the iterator is still positioned on must not be released together with its
+ *          last child (found natively after fix 8bf0afc: put b, bc; next (b); rm b; rm bc; next -> use after free);
  *  parked: the removed key IS the one the iterator is parked on.  GENUINE DEFECT T1: trie_rm only drops one of
  *          the node's two references, the value stays in the node: the key is still found (get returns the value,
  *          a second rm succeeds again and frees the node under the iterator). */
@@ -71,7 +76,20 @@ static void verif_case(unsigned mask, unsigned descending)
 	if (victim != parked) {
 		tr_check_notified(QB_MAP_NOTIFY_DELETED, tr_ukeys[victim], oldv, NULL);
 	}
+#ifdef V_THEN_REST
+	for (i = 0; i < TR_NU; i++) {
+		if (TD[i] != NULL) {
+			int32_t r2 = trie_rm(&t->map, tr_ukeys[i]);
+			POST(r2 != QB_FALSE, "remove reports success when the key was present");
+			TD[i] = NULL;
+		}
+	}
+	tr_check_state(t);
+#endif
 	key = trie_iter_next(it, &val);
+#ifdef V_THEN_REST
+	POST(key == NULL, "the iteration ends when no present key is left");
+#endif
 	if (key != NULL) {
 		int idx = -1;
 		for (i = 0; i < TR_NU; i++) {
@@ -79,7 +97,7 @@ static void verif_case(unsigned mask, unsigned descending)
 				idx = (int)i;
 			}
 		}
-#ifdef V_PARKED
+#if defined(V_PARKED) && !defined(V_THEN_REST)
 		COVER(1);
 #endif
 		POST(idx >= 0 && TD[idx] != NULL && idx != parked, "the iteration continues with a key that is still present");
